@@ -602,3 +602,26 @@ pub enum ParseErrorLevel {
     /// A very serious error that can cause continuous compiling issues, such as miss matched braces.
     Fatal,
 }
+
+/// Verification hook: run the expression parser alone on `src` (as the inside of `{{ ... }}`).
+#[cfg(glass_easel_verif)]
+pub fn verif_parse_expr(
+    src: &str,
+    prefer_object_inner: bool,
+) -> (Option<Box<expr::Expression>>, Vec<ParseError>, usize, Position) {
+    let mut ps = ParseState::new("", src, Default::default());
+    let e = expr::Expression::parse_expression_or_object_inner(&mut ps, prefer_object_inner);
+    let idx = ps.cur_index();
+    let pos = ps.position();
+    (e, ps.take_warnings(), idx, pos)
+}
+
+/// Verification hook: run the text/attribute value parser (static text, entities, `{{ }}` pieces) on the whole `src`.
+#[cfg(glass_easel_verif)]
+pub fn verif_parse_value(src: &str) -> (tag::Value, Vec<ParseError>, usize, Position) {
+    let mut ps = ParseState::new("", src, Default::default());
+    let v = tag::Value::verif_parse_until_end(&mut ps);
+    let idx = ps.cur_index();
+    let pos = ps.position();
+    (v, ps.take_warnings(), idx, pos)
+}
